@@ -42,6 +42,10 @@ pub enum Dl {
 #[derive(Clone, Debug, Serialize, Deserialize, PartialEq, Eq)]
 pub enum COp {
     Step { sel: u16 },
+    /// Like Step, but the task is polled with only `budget` units of tokio's cooperative-scheduling
+    /// budget left, as at the end of a long poll under load: from the (budget+1)-th operation on a
+    /// tokio resource (mpsc / oneshot receive, timer) the resource answers Pending and wakes the task.
+    StepCoop { sel: u16, budget: u8 },
     Drain,
     NewCall { handle: u16, dl: Dl, trace: u16, sampled: bool },
     Reply { sel: u16, err: bool },
@@ -235,10 +239,26 @@ impl ClientSim {
     }
 
     pub fn poll_task(&self, t: TaskId) -> PollOut {
+        self.poll_task_c(t, false)
+    }
+
+    /// `constrained`: poll under whatever is left of the cooperative-scheduling budget tokio gave the
+    /// interpreter's root future (see `COp::StepCoop`); otherwise the poll is exempt from it.
+    pub fn poll_task_c(&self, t: TaskId, constrained: bool) -> PollOut {
         self.hist.0.cur_task.set(Some(t));
         self.hist.0.poll_seq.set(self.hist.0.poll_seq.get() + 1);
         self.hist.push(Ev::PollStart { task: t });
-        let out = self.exec.poll(t);
+        let out = if constrained {
+            self.exec.poll(t)
+        } else {
+            let mut f = std::pin::pin!(tokio::task::unconstrained(std::future::poll_fn(|_| Poll::Ready(self.exec.poll(t)))));
+            let w = futures::task::noop_waker();
+            let mut cx = Context::from_waker(&w);
+            match f.as_mut().poll(&mut cx) {
+                Poll::Ready(o) => o,
+                Poll::Pending => unreachable!("poll_fn returns Ready"),
+            }
+        };
         self.hist.0.cur_task.set(None);
         let o = match &out {
             PollOut::Pending => "Pending".to_string(),
@@ -248,7 +268,7 @@ impl ClientSim {
                 format!("Panicked: {m}")
             }
         };
-        self.hist.push(Ev::PollEnd { task: t, out: o });
+        self.hist.push(Ev::PollEnd { task: t, out: o, woken: self.exec.is_woken(t) });
         self.collect_wire();
         out
     }
@@ -533,6 +553,24 @@ impl ClientSim {
             COp::Step { sel } => {
                 self.step(*sel);
             }
+            COp::StepCoop { sel, budget } => {
+                let w = self.exec.woken();
+                if w.is_empty() {
+                    self.noop();
+                } else {
+                    let t = w[Self::pick(*sel, w.len())];
+                    // a fresh budget (128 units) for the root future, then burn all but `budget` of it
+                    tokio::task::yield_now().await;
+                    for _ in 0..(128u32.saturating_sub(*budget as u32)) {
+                        tokio::task::coop::consume_budget().await;
+                    }
+                    if self.exec.is_woken(t) {
+                        self.poll_task_c(t, true);
+                    } else {
+                        self.noop();
+                    }
+                }
+            }
             COp::Drain => self.drain().await,
             COp::NewCall { handle, dl, trace, sampled } => self.new_call(*handle, *dl, *trace, *sampled),
             COp::Reply { sel, err } => self.reply(*sel, *err),
@@ -722,7 +760,9 @@ pub fn run_client(cfg: &ClientCfg, ops: &[COp]) -> ClientRun {
     let _sub = subscriber_guard(cfg.subscriber);
     let rt = new_runtime();
     let hist = Hist::new();
-    let out = rt.block_on(tokio::task::unconstrained(async {
+    // the root future runs under tokio's cooperative budget; every ordinary task poll is individually
+    // exempt from it (poll_task), only StepCoop polls feel it
+    let out = rt.block_on(async {
         let sim = ClientSim::new(cfg.clone(), hist.clone(), 0, 0);
         for op in ops {
             if sim.livelock.get() {
@@ -751,7 +791,7 @@ pub fn run_client(cfg: &ClientCfg, ops: &[COp]) -> ClientRun {
         run.recs = hist.snapshot();
         sim.finish();
         run
-    }));
+    });
     drop(rt);
     tarpc::verif::set_yield_hook(None);
     clock::disable();
